@@ -90,10 +90,15 @@ def gen_case(rng, thorough=False):
     N = rng.choice(N_SET + [2, 3, 3])
     opts = rng.randrange(8)
     gran = rng.choice([1, 1000, 1000] + ([2000] if thorough else []))
-    base, suffix = rng.choice([(b'my.app', b'log')] * 3 + [(b'applog', b''), (b'a+b', b'txt')])
+    # '.', '+' are regex metacharacters, '[', ']', '?', '*' glob (QDir name filter) ones: all literal for the sink
+    base, suffix = rng.choice([(b'my.app', b'log')] * 4 + [(b'applog', b''), (b'a+b', b'txt'), (b'svc[2]', b'log'), (b'q?x*', b'txt')])
     names = Names(base, suffix)
+    # process time zone, minutes east of UTC (POSIX TZ strings; the virtual clock itself is UTC)
+    tz = rng.choice([0, 0, 0, 540, -660, 330, -210, 765])
+    off = tz * 60000
     day0 = 19675 + rng.randrange(0, 400)
-    t0 = day0 * DAY + rng.choice([0, 1, 43200000, DAY - 1500, DAY - 1, rng.randrange(DAY)])
+    t0 = day0 * DAY + rng.choice([0, 1, 43200000, DAY - 1500, DAY - 1, rng.randrange(DAY), rng.randrange(DAY),
+                                  -off % DAY, -off % DAY - 1500, -off % DAY + 3600000, (-off % DAY) // 2])
     ops = []
     t = t0
     # files of an earlier life of the same sink: the indices 8, 9 / 98, 99 are about to be crossed
@@ -102,7 +107,7 @@ def gen_case(rng, thorough=False):
         for idxs, when in rng.sample([([b'8', b'9'], 0), ([b'98', b'99'], 0), ([b'1', b'2'], 1), ([b'3'], 7),
                                       ([b'007'], 0), ([b'9'], 0), ([b'99'], 1), ([b'4294967297'], 2)], rng.choice([1, 1, 2])):
             for ix in idxs:
-                seeds.append((datestr(day0 - when), ix, rng.random() < 0.3))
+                seeds.append((datestr((t0 + off) // DAY - when), ix, rng.random() < 0.3))
         seen, uniq = set(), []
         for s in seeds:
             p = names.parse(names.rotated(*s))
@@ -151,20 +156,21 @@ def gen_case(rng, thorough=False):
             ops.append(('w', p))
         elif x < 0.82:
             dt = rng.choice([0, 1, 5, 999, 1000, 1001, DAY, DAY, 2 * DAY, 3 * DAY, DAY - 1,
-                             DAY - t % DAY, DAY - t % DAY - 1, 30 * DAY] if style != 'burst' else [0, 1, 999])
+                             DAY - t % DAY, DAY - t % DAY - 1, DAY - (t + off) % DAY, DAY - (t + off) % DAY - 1, 30 * DAY]
+                            if style != 'burst' else [0, 1, 999])
             if style == 'days' and rng.random() < 0.5:
-                dt = rng.choice([DAY, 2 * DAY, DAY - t % DAY])
+                dt = rng.choice([DAY, 2 * DAY, DAY - t % DAY, DAY - (t + off) % DAY])
             t += dt
             ops.append(('adv', dt))
         elif x < 0.91:
             if rng.random() < 0.5:                                           # the active file keeps an older stamp
-                dt = rng.choice([1, DAY, 2 * DAY, DAY - t % DAY])
+                dt = rng.choice([1, DAY, 2 * DAY, DAY - t % DAY, DAY - (t + off) % DAY])
                 t += dt
                 ops.append(('adv', dt))
             ops.append(('restart',))
         else:
             ops.append(('put', rng.choice(la), rng.choice([b'', b'foreign\n', b'\x00\xff'])))
-    return {'L': L, 'N': N, 'opts': opts, 'gran': gran, 'base': base, 'suffix': suffix, 't0': t0, 'ops': ops}
+    return {'L': L, 'N': N, 'opts': opts, 'gran': gran, 'base': base, 'suffix': suffix, 't0': t0, 'tz': tz, 'ops': ops}
 
 
 # ------------------------------------------------------------------------------------ protocol
@@ -173,8 +179,8 @@ def seed_content(case, k, name):
 
 
 def lines_of(case, for_impl):
-    ls = ['case %d %d %d %d %s %s %d' % (case['L'], case['N'], case['opts'], case['gran'], hx(case['base']),
-                                         hx(case['suffix']), case['t0'])]
+    ls = ['case %d %d %d %d %s %s %d %d' % (case['L'], case['N'], case['opts'], case['gran'], hx(case['base']),
+                                            hx(case['suffix']), case['t0'], case.get('tz', 0))]
     k = 0
     for o in case['ops']:
         if o[0] == 'w':
@@ -303,7 +309,7 @@ class Ghost:
             self.fexp[o[1]] = o[2]
 
     def _add(self, b):
-        self.hist.append((len(self.hist), self.t // DAY, b))
+        self.hist.append((len(self.hist), (self.t + self.case.get('tz', 0) * 60000) // DAY, b))
         self.pos.append(self.pos[-1] + len(b))
 
     def snapshot(self, listing):
@@ -470,7 +476,7 @@ def probe_newline_lookalike(chk, impl, model):
         nm = Names(base, suffix)
         t0 = 19675 * DAY + 1000
         name = nm.rotated(datestr(19675), b'1', gz) + b'\n'
-        case = {'L': 8, 'N': 2, 'opts': 0, 'gran': 1, 'base': base, 'suffix': suffix, 't0': t0,
+        case = {'L': 8, 'N': 2, 'opts': 0, 'gran': 1, 'base': base, 'suffix': suffix, 't0': t0, 'tz': 0,
                 'ops': [('put', name, b'not a log of this sink\n')] + [('w', b'r%d.yyy' % i) for i in range(3)]}
         ls, _ = run_impl_one(impl, case)
         if len(ls) != len(case['ops']) + 1:
@@ -499,7 +505,7 @@ def run_check(pid):
                    'extraction ExtrOcamlBasic, no Extract Constant; ocaml/drv_rotate.ml',
                    'harness/h_rotate.cpp (virtual clock, utimensat re-stamping); checks/rotate_util.py (ghost reconstruction); Python gzip',
                    'modelled not verified: file system, QRegularExpression, QDate, local 8-bit codec = UTF-8, gzip bytes (C08)']
-    chk.assumptions = ['the wall clock never goes backwards (Advance dt >= 0) and stays before 9999-12-31',
+    chk.assumptions = ['the wall clock never goes backwards (Advance dt >= 0) and stays before 9999-12-31; the process time zone is a fixed offset (no DST change during a history)',
                        'no other program creates files matching the sink\'s rotated-name scheme while it runs (pre-existing ones = an earlier life of the same sink)',
                        '(L, N, options) stay fixed across restarts; messages are dated by the wall clock at the time they are written (synchronous logging; DESIGN F7)',
                        'no I/O errors (C10), UTF-8 locale, rotation indices below 2^31']
@@ -580,11 +586,11 @@ def run_check(pid):
         if sig in reported:
             continue
         reported.add(sig)
-        what = '%s falsified on the real RotatingFileSink: L=%d N=%d options=%d granularity=%dms file=%s, %d operations; oracle prop_%s_b false after operation %d (%s)' % (
-            pid, small['L'], small['N'], small['opts'], small['gran'], nm.active.decode(), len(ops), pid.lower(), fbs,
+        what = '%s falsified on the real RotatingFileSink: L=%d N=%d options=%d granularity=%dms zone=UTC%+dmin file=%s, %d operations; oracle prop_%s_b false after operation %d (%s)' % (
+            pid, small['L'], small['N'], small['opts'], small['gran'], small.get('tz', 0), nm.active.decode(), len(ops), pid.lower(), fbs,
             show_op(([None] + list(ops))[fbs]))
         chk.fail(what, {'kind': KIND[pid], 'case': case_json(small), 'L': small['L'], 'N': small['N'], 'options': small['opts'],
-                        'granularity_ms': small['gran'], 'n_ops': len(ops), 'first_bad_step': fbs,
+                        'granularity_ms': small['gran'], 'tz_minutes_east': small.get('tz', 0), 'n_ops': len(ops), 'first_bad_step': fbs,
                         'ops_readable': [show_op(o) for o in ops],
                         'oracle_bits_per_step(c05,c06,c07,c09)': bits,
                         'implementation_listing_at_failure': show_listing(ls[fbs]),
@@ -611,11 +617,13 @@ def run_check(pid):
         for c in cases:
             k = str(f(c)); h[k] = h.get(k, 0) + 1
         return h
-    bnd, kinds, cross, ticks, jumps, predated = {}, {}, {'9->10': 0, '99->100': 0}, 0, 0, 0
+    bnd, kinds, cross, ticks, jumps, predated, tzdiff = {}, {}, {'9->10': 0, '99->100': 0}, 0, 0, 0, 0
     for c, (ol, infos) in zip(cases, olines):
         last_rot_t, t = None, c['t0']
         for k, o in enumerate(c['ops']):
             kinds[o[0]] = kinds.get(o[0], 0) + 1
+            if o[0] == 'w' and (t + c.get('tz', 0) * 60000) // DAY != t // DAY:
+                tzdiff += 1
             if o[0] == 'w' and c['L'] > 0:
                 d = len(o[1]) + 1 - c['L']
                 if -2 <= d <= 2:
@@ -650,7 +658,8 @@ def run_check(pid):
         'oracle_evaluated_on_impl_listings': stats['oracle_evaluations'], 'oracle_falsified_cases': len(falsified),
         'disagreements_model_vs_impl': len(disagreements), 'source_shape_is_proven_shape': shape_std,
         'L_histogram': hist(lambda c: c['L']), 'N_histogram': hist(lambda c: c['N']), 'options_histogram': hist(lambda c: c['opts']),
-        'granularity_histogram': hist(lambda c: c['gran']), 'file_name_histogram': hist(lambda c: Names(c['base'], c['suffix']).active.decode()),
+        'granularity_histogram': hist(lambda c: c['gran']), 'time_zone_minutes_histogram': hist(lambda c: c.get('tz', 0)),
+        'writes_while_local_date_differs_from_utc_date': tzdiff, 'file_name_histogram': hist(lambda c: Names(c['base'], c['suffix']).active.decode()),
         'seeded_cases': sum(1 for c in cases if any(o[0] == 'seed' for o in c['ops'])),
         'op_kind_histogram': kinds, 'record_length_minus_L_hits': bnd, 'index_crossings': cross,
         'rotations_within_the_same_coarse_tick': ticks, 'day_jumps': jumps, 'restarts_with_predated_active_file': predated,
@@ -674,7 +683,7 @@ def replay_check(pid, path):
     ls, _ = run_impl_one(impl, case)
     mo = run_exec(model, [lines_of(case, False)], (), chunks=1)[0][0]
     bits, infos, _, _ = verdicts(case, model, ls)
-    print('configuration  L=%d N=%d options=%d granularity=%dms file=%s t0=%d' % (case['L'], case['N'], case['opts'], case['gran'], nm.active.decode(), case['t0']))
+    print('configuration  L=%d N=%d options=%d granularity=%dms zone=UTC%+dmin file=%s t0=%d' % (case['L'], case['N'], case['opts'], case['gran'], case.get('tz', 0), nm.active.decode(), case['t0']))
     for i, o in enumerate([None] + list(case['ops'])):
         print('--- after operation %d: %s' % (i, show_op(o)))
         print('  implementation', show_listing(ls[i]) if i < len(ls) else None)
